@@ -77,15 +77,35 @@ def rule_I1(ctx, prog, label, rule='I1'):
     from .contracts import guards_of
     gs, _g, _fs = guards_of(f)
     dom = g.dominators()
+    # sinks: coordinates handed to mzd_write_bit / mzd_row, and hand-made (word index, bit) addressing of a row
     sinks = []
+    seen_nodes = set()
     for cn in g.nodes:
-        if cn.ast is None:
+        if cn.ast is None or cn.kind not in ('stmt', 'branch'):
             continue
-        for c in cn.ast.find('CallExpr'):
-            if callee_name(c) == 'mzd_write_bit':
-                sinks.append((cn, c))
+        for c in cn.ast.walk():
+            if c.uid in seen_nodes:
+                continue
+            if c.kind == 'CallExpr' and callee_name(c) == 'mzd_write_bit':
+                seen_nodes.add(c.uid)
+                sinks.append((cn, c, 'row', c.kids[2]))
+                sinks.append((cn, c, 'column', c.kids[3]))
+            elif c.kind == 'CallExpr' and callee_name(c) in ('mzd_row', 'mzd_row_const'):
+                seen_nodes.add(c.uid)
+                sinks.append((cn, c, 'row', c.kids[2]))
+            elif c.kind == 'ArraySubscriptExpr':
+                seen_nodes.add(c.uid)
+                e = strip(c.kids[1], casts=True)
+                for _ in range(3):
+                    if e.kind == 'DeclRefExpr' and e.refkind == 'VarDecl':
+                        d = fs.single_def(e.refid)
+                        if d is None:
+                            break
+                        e = strip(d, casts=True)
+                if e.kind == 'BinaryOperator' and e.op == '/' and (int_value(e.kids[1]) == 64 or pp(strip(e.kids[1], casts=True)) == 'm4ri_radix'):
+                    sinks.append((cn, c, 'column', e.kids[0]))
     if not sinks:
-        raise AnalysisBroken('I1: mzd_write_bit call vanished from mzd_from_jcf')
+        raise AnalysisBroken('I1: no coordinate sink (mzd_write_bit, mzd_row, row[col / 64]) left in mzd_from_jcf')
     # tainted variables: written through fscanf or updated under a condition on a tainted variable
     tainted = set()
     for c in f.body.find('CallExpr'):
@@ -105,8 +125,8 @@ def rule_I1(ctx, prog, label, rule='I1'):
                         if t.kind == 'DeclRefExpr' and t.refid not in tainted and t.refkind == 'VarDecl':
                             tainted.add(t.refid)
                             changed = True
-    for (cn, c) in sinks:
-        for role, arg in (('row', c.kids[2]), ('column', c.kids[3])):
+    for (cn, c, role, arg) in sinks:
+        for _once in (1,):
             vars_ = [x for x in arg.walk() if x.kind == 'DeclRefExpr' and x.refid in tainted]
             if not vars_:
                 continue
@@ -133,10 +153,25 @@ def rule_I1(ctx, prog, label, rule='I1'):
                             bound = y.c - d.c + (1 if o == '<=' else 0)
                             if bound >= 0:
                                 lower = True
+            if not lower and strip(arg, casts=True).kind == 'DeclRefExpr':
+                # a counter that starts at a constant >= -1, is only ever incremented, and is incremented before the sink
+                vid = strip(arg, casts=True).refid
+                ds = fs.defs.get(vid, [])
+                incs = [n for n in f.body.walk() if n.kind == 'UnaryOperator' and n.op == '++' and strip(n.kids[0]).kind == 'DeclRefExpr' and strip(n.kids[0]).refid == vid]
+                others = [n for n in f.body.walk() if ((n.kind == 'UnaryOperator' and n.op == '--') or n.kind == 'CompoundAssignOperator') and strip(n.kids[0]).kind == 'DeclRefExpr' and strip(n.kids[0]).refid == vid]
+                if len(ds) == 1 and int_value(ds[0]) is not None and not others and vid not in [strip(a_.kids[0]).refid for c_ in f.body.find('CallExpr') for a_ in c_.kids[1:] if strip(a_, casts=True).kind == 'UnaryOperator' and strip(a_, casts=True).op == '&' and strip(strip(a_, casts=True).kids[0]).kind == 'DeclRefExpr']:
+                    c0 = int_value(ds[0])
+                    if c0 >= 0:
+                        lower = True
+                    elif c0 == -1:
+                        for n in incs:
+                            owner = [x for x in g.nodes if x.ast is not None and x.kind in ('stmt', 'branch') and any(y is n for y in x.ast.walk())]
+                            if owner and (owner[-1].id in dom.get(cn.id, ()) and owner[-1] is not cn or (owner[-1] is cn and (n.line, n.col or 0) < (c.line, c.col or 0))):
+                                lower = True
             rr.ob(lower and upper, dict(sink=pp(c)[:60], role=role, expression=pp(arg), lower_bound=lower, upper_bound=upper),
                   Finding(rule, '%s|mzd_from_jcf|%s|%s' % (rule, role, 'lower' if not lower else 'upper'), c.loc, f.name,
-                          'the %s index `%s` written by mzd_write_bit comes from the file and has no rejecting %s bound (index 0, a positive first entry or a wrongly signed value reaches the matrix)' % (
-                              role, pp(arg), 'lower' if not lower else 'upper'), {}, label))
+                          'the %s index `%s` used at `%s` comes from the file and has no rejecting %s bound against the matrix dimension (index 0, a positive first entry, a wrongly signed or too large value reaches the matrix)' % (
+                              role, pp(arg), pp(c)[:40], 'lower' if not lower else 'upper'), {}, label))
     if rr.instances < 2:
         raise AnalysisBroken('I1: expected a tainted row and column index, found %d' % rr.instances)
     return rr
